@@ -42,6 +42,7 @@ def facets(c):
     f["same_shape"] = c["s"] == c["s2"]
     f["s"] = list(c["s"])
     f["maxnd"] = max(len(c["s"]), len(c["s2"]))
+    f["rank_excess"] = len(c["s"]) - len(c["tp"])
     f["square"] = len(c["s"]) == 2 and c["s"][0] == c["s"][1]
     return f
 
